@@ -39,6 +39,16 @@ pub struct W1ACase {
     pub impact_action: String,
     pub with_loop: bool,
     pub order_seed: u64,
+    /// history of the existing router before the analyses see it: rules (pool indices) inserted and removed again
+    /// (buckets pruned, trees split and collapsed), then a cache warm-up with this limit (-1: none, 100000: `None`)
+    #[serde(default)]
+    pub base_churn: Vec<usize>,
+    #[serde(default = "no_cache")]
+    pub base_cache: i64,
+}
+
+fn no_cache() -> i64 {
+    -1
 }
 
 pub const SIG_STALE_COUNTS: &str = "stale-level-counts-after-batch-remove";
@@ -114,6 +124,7 @@ impl World for W1A {
         };
         let nids = (npool * 2 / 3).max(2);
         let mut rules = Vec::new();
+        let cluster = rng.chance(1, 4);
         for k in 0..npool {
             let id = format!("r{}", k % nids);
             let mut r = rg.rule(rng, &id, &swarm);
@@ -135,6 +146,26 @@ impl World for W1A {
                 r.as_object_mut().unwrap().remove("markers");
                 r["target"] = json!(to);
                 r["status_code"] = json!(*rng.pick(&[301u16, 302, 307, 308]));
+            }
+            if cluster && rng.chance(2, 3) {
+                // a family of marker sources with no other trigger: one path tree, prefixes of different lengths, so
+                // that a rule brought by the change-set splits a node of the (possibly warmed) tree the router holds
+                let path = rng.pick_str(&["/Catalog/Shoes/@id", "/Catalog/Shirts/@id", "/Cart/@id", "/blog/@slug", "/Catalog/Shoes/@id/@slug", "/Care/@slug", "/blog/@slug/comments"]);
+                r["source"] = json!({"scheme": Value::Null, "host": Value::Null, "ips": Value::Null, "path": path, "query": Value::Null, "headers": Value::Null,
+                    "methods": Value::Null, "exclude_methods": Value::Null, "response_status_codes": Value::Null, "exclude_response_status_codes": Value::Null, "sampling": Value::Null});
+                let mut markers = Vec::new();
+                if path.contains("@id") {
+                    markers.push(json!({"name": "id", "regex": "[0-9]+"}));
+                }
+                if path.contains("@slug") {
+                    markers.push(json!({"name": "slug", "regex": "(?:[a-z]|\\-)+?"}));
+                }
+                r["markers"] = json!(markers);
+                if let Some(t) = r["target"].as_str() {
+                    if t.contains('@') {
+                        r["target"] = json!(format!("/t/{id}"));
+                    }
+                }
             }
             let ne = rng.below(4);
             if ne > 0 {
@@ -213,8 +244,11 @@ impl World for W1A {
             },
             impact_action: rng.pick_str(&["add", "update", "delete", "update", "delete"]),
             with_loop: rng.coin(),
-            rules,
             order_seed: rng.next_u64(),
+            // the router the agent holds has a past: it was warmed (most of the time) and rules came and went
+            base_churn: if rng.chance(1, 3) { (0..rng.range(1, 3)).map(|_| rng.below(rules.len())).collect() } else { Vec::new() },
+            base_cache: if rng.chance(3, 5) { *rng.pick(&[0i64, 1, 2, 3, 5, 1000, 100000]) } else { -1 },
+            rules,
         }
     }
 
@@ -238,6 +272,16 @@ impl World for W1A {
         for r in vec_removals(&case.deleted) {
             let mut c = case.clone();
             c.deleted = r;
+            out.push(c);
+        }
+        for r in vec_removals(&case.base_churn) {
+            let mut c = case.clone();
+            c.base_churn = r;
+            out.push(c);
+        }
+        if case.base_cache != -1 {
+            let mut c = case.clone();
+            c.base_cache = -1;
             out.push(c);
         }
         for (k, r) in case.rules.iter().enumerate() {
@@ -304,7 +348,7 @@ impl World for W1A {
     }
 
     fn rule(_prop: &str, _mode: &str) -> String {
-        "one run = a base rule set (with 0-3 generated examples per rule: URL instantiating the rule or a near miss, method, headers, ip, datetime, optional response code, must_match, expected unit ids; redirect chains and loops over /l1../l5 with relative, absolute, scheme-relative and foreign targets) published as an Arc<Router>, a change-set (added / updated to another version / deleted incl. unknown ids), hop limit in {1,2,3,5,10}, project domains in {none, example.com, other.org+example.com}; the four analyses are run in their project variant, in their standalone variant on the resulting rule list and once more on the reversed/shuffled list; compared on canonicalised JSON, against the live pipeline (request-time stage, then response-time stages) and, for redirect chains, hop by hop. evaluations = analysis outputs compared. distinct_nontrivial = distinct cases whose change-set is not empty and whose rules carry at least one example".to_string()
+        "one run = a base rule set held by a router with a past (one time in three rules were inserted and removed again, three times in five its regex cache was warmed with a limit from {0,1,2,3,5,1000,default}) (with 0-3 generated examples per rule: URL instantiating the rule or a near miss, method, headers, ip, datetime, optional response code, must_match, expected unit ids; redirect chains and loops over /l1../l5 with relative, absolute, scheme-relative and foreign targets) published as an Arc<Router>, a change-set (added / updated to another version / deleted incl. unknown ids), hop limit in {1,2,3,5,10}, project domains in {none, example.com, other.org+example.com}; the four analyses are run in their project variant, in their standalone variant on the resulting rule list and once more on the reversed/shuffled list; compared on canonicalised JSON, against the live pipeline (request-time stage, then response-time stages) and, for redirect chains, hop by hop. evaluations = analysis outputs compared. distinct_nontrivial = distinct cases whose change-set is not empty and whose rules carry at least one example".to_string()
     }
 }
 
@@ -538,6 +582,28 @@ fn exec(case: &W1ACase, ctx: &mut Ctx) {
         let mut base_router = Router::<Rule>::from_config(config.clone());
         for r in &base_rules {
             base_router.insert(r.clone());
+        }
+        let mut churned: Vec<String> = Vec::new();
+        for k in &case.base_churn {
+            if let Some(r) = rule_at(*k) {
+                if !base_rules.iter().any(|b| b.id == r.id) && !churned.contains(&r.id) {
+                    churned.push(r.id.clone());
+                    base_router.insert(r);
+                }
+            }
+        }
+        if churned.len() > 1 {
+            let ids: HashSet<String> = churned.iter().cloned().collect();
+            base_router.batch_remove(&ids);
+        } else {
+            for id in &churned {
+                base_router.remove(id);
+            }
+        }
+        match case.base_cache {
+            -1 => {}
+            100000 => base_router.cache(None),
+            n => base_router.cache(Some(n.max(0) as u64)),
         }
         let arc = Arc::new(base_router);
         let mut outs: Vec<(String, Value, Value, Value)> = Vec::new();
